@@ -129,8 +129,13 @@ def run(ck: Check) -> None:
         cases += [Case("key", ["priv_from_hex", bad], tag="bad-hex"), Case("key", ["pub_from_hex", bad], tag="bad-hex")]
     for bad in [None, 5, "x" * 32, list(range(32)), tuple(range(32)), proto.Opaque(0), h]:
         cases += [Case("key", ["priv_from_bytes", bad], tag="bad-kind"), Case("key", ["pub_from_bytes", bad], tag="bad-kind")]
-    for bad in [None, "x", 5, seeds[6], proto.Opaque(0)]:
-        cases += [Case("key", ["priv_equiv", proto.KeyObj(True, seeds[6]), bad], tag="equiv-bad-kind"), Case("check", ["key", bad], tag="checkformat_key")]
+    # ... and objects that look like keys without being ed25519 keys: keys of other algorithms (Ed448, X25519, P-256), stand-ins offering the same methods
+    foreign = [proto.Opaque(t) for t in proto.FOREIGN_KEY_TAGS]
+    for bad in [None, "x", 5, seeds[6], proto.Opaque(0)] + foreign:
+        cases += [Case("key", ["priv_equiv", proto.KeyObj(True, seeds[6]), bad], tag="equiv-bad-kind"), Case("check", ["key", bad], tag="checkformat_key"),
+                  Case("key", ["pub_equiv", bad, proto.KeyObj(False, Pub.to_bytes(P.from_bytes(seeds[6]).public_key()))], tag="equiv-bad-kind")]
+    for bad in foreign:
+        cases += [Case("sign", [{"signatures": {}, "signed": {"a": 1}}, bad], tag="bad-kind-sign")]
     res = ck.run_cases(cases, "corr:key-helpers/value")
     for r in res:
         ck.oracle_checks += 1
